@@ -380,6 +380,12 @@ func (w *World) Notify(r *Req) {
 	if w.isDead() {
 		return
 	}
+	if w.inboxLen() > inboxCap-256 && r.task != nil && !r.task.root {
+		// a task that produces notes without ever parking (e.g. byte-wise reads of buffered
+		// data, each unlocking a mutex) would overflow the inbox: park once so that the
+		// scheduler drains it
+		w.Park(&Req{Kind: KYield})
+	}
 	w.publish(r)
 }
 
